@@ -27,7 +27,9 @@ RESERVED = ["q0", "q12", "name", "version", "target", "type"]
 DECLS = [("int", "int R = 1"), ("float", "float R = 1.5"), ("complex", "complex R = 1+2j"), ("bool", "bool R = True"), ("str", 'str R = "s"'),
          ("arr", "float array R =\n    1, 2"), ("arrshape", "int array R[1, 2] =\n    1, 2"), ("carr", "complex array R =\n    1j")]
 MODES = ["1.0", "1+0j", "2/2", "2**0.5", "x", "z", "A2[0]", "s", "[0, 1.5]", "[1.0, 0]", "(0, x)", "0, 2.0", '"a"', "pi", "-0.0", "4/2"]
-CPLX = ["1+2j", "(1+2j)*2", "2*1j", "sqrt(-1+0j)", "z", "z*z", "1j**2+0.5j", "-z", "exp(1j)", "z/2"]
+CPLX = ["1+2j", "(1+2j)*2", "2*1j", "sqrt(-1+0j)", "z", "z*z", "1j**2+0.5j", "-z", "exp(1j)", "z/2",
+        # computed complex values whose imaginary part happens to be zero are still complex values
+        "1j*1j", "2j**2", "z-2j", "(1+2j)*(1-2j)", "z*0"]
 CSLOTS = [("int", "int v = C"), ("float", "float v = C"), ("intarr", "int array V =\n    1, C"), ("floatarr", "float array V[1, 2] =\n    C, 1"), ("floatarr2", "float array V =\n    1, 2\n    3, C"),
           ("intloop", "for int j in [C]\n    G | 0"), ("floatloop", "for float j in [1.5, C]\n    G | 0")]
 LOOPT = [("int", "0.5"), ("int", '"a"'), ("str", "1"), ("float", '"a"'), ("bool", "2"), ("int", "1, 2.5"), ("bool", '"True"'), ("str", "True"), ("int", "7/2")]
@@ -82,6 +84,14 @@ def build(ctx, incdir):
         src = H + body + tpl.replace("U", nm) + "\n" + post
         ln, c = locate(src, nm, len((H + body).split("\n")))
         cases.append(("undefined-" + slot, src, (nm, ln, c)))
+    # a former loop variable used after its loop is an undefined name like any other
+    for post, (slot, tpl) in itertools.product(posts, UND):
+        if slot in ("looplist", "loopbody", "loopmode"):
+            continue
+        body = "int array B =\n    1, 2\nfor int w in 0:2\n    H(w) | w\n"
+        src = H + body + tpl.replace("U", "w") + "\n" + post
+        ln, c = locate(src, "w", len((H + body).split("\n")))
+        cases.append(("undefined-formerloopvar-" + slot, src, ("w", ln, c)))
     for hdr, slot in (("target g (shots=uu)\n", "targetopt"), ("type t (k=[1, uu])\n", "typeopt"), ("target g (a=1, b=2*uu)\ntype t (c=1)\n", "targetopt2")):
         src = "name a\nversion 1.0\n" + hdr + "G | 0\n"
         ln, c = locate(src, "uu")
@@ -101,7 +111,10 @@ def build(ctx, incdir):
         cases.append(("mode-" + m, H + decl + pre + "G(1) | %s\nK | 0\n" % m + post, None))
     cases.append(("mode-loopvar", H + "for float y in [1.0]\n    G | y\n", None))
     cases.append(("mode-loopvar", H + "for float y in [0.5, 1.0]\n    G | [0, y]\n", None))
+    ZERO_IMAG = ("1j*1j", "2j**2", "z-2j", "(1+2j)*(1-2j)", "z*0")
     for pre, post, c, (slot, tpl) in itertools.product(pres, posts, CPLX, CSLOTS):
+        if "loop" in slot and c in ZERO_IMAG:
+            continue   # a value that converts exactly (like 1.0 in an int loop) is a grey zone the property does not settle
         cases.append(("complex-" + slot, H + "complex z = 1+2j\n" + pre + tpl.replace("C", c) + "\n" + post, None))
     for t, v in LOOPT:
         for br in ("[%s]", "(%s)", "%s"):
